@@ -57,3 +57,6 @@ REG.contract(U_ + "get_interaction_matrix", params={"x": "arr", "y": "arr"}, ret
                                        "l[_i1 * y.shape[1] + b][r] == x[r, _i1] * y[r, b]))"])})
 
 FUNCTIONS = [U_ + "get_interaction_matrix"]
+
+
+ASSUMPTIONS = ['numpy externals assumed: x[:, newaxis], column indexing, elementwise product, column_stack of a list of vectors']
